@@ -6,8 +6,6 @@ Lemma pins_C06_lemma :
   pinned_tz_tzfile__read_tzfile = true /\
   pinned_tz_tzfile___init__ = true /\
   pinned_tz_tzfile__set_tzdata = true /\
-  pinned_tz_tzfile___eq__ = true /\
-  pinned_tz__ttinfo___eq__ = true /\
   pinned_tz_tzfile___reduce_ex__ = true /\
   pinned_zoneinfo_ZoneInfoFile___init__ = true /\
   pinned_zoneinfo_ZoneInfoFile_get = true /\
